@@ -3,7 +3,6 @@ package main
 import (
 	"go/token"
 	"go/types"
-	"strings"
 
 	"golang.org/x/tools/go/ssa"
 )
@@ -304,47 +303,73 @@ func paramActuals(p *Prog, pa *ssa.Parameter) []ssa.Value {
 	return out
 }
 
-// reflectCallWrapper: f is a package helper that does nothing with its parameters but `fn.Call(args)` — same argument
-// layout as the method itself, (fn reflect.Value, args []reflect.Value) — and hands the results back as its first
-// result (typically under a deferred recover that turns a panic of the called code into an error). A call of such a
-// helper is judged like the reflect Call it makes: preconditions at the helper's call sites, results as Call results.
-func reflectCallWrapper(p *Prog, f *ssa.Function) bool {
-	if f == nil || !p.InPkg(f) || f.Blocks == nil || len(f.Params) != 2 || f.Signature.Recv() != nil || f.Signature.Results().Len() < 1 {
-		return false
+// reflectCallWrapperIdx: f is a package helper through which a reflect Call is made: two of its parameters, a
+// reflect.Value fn and a []reflect.Value args, are handed unchanged to `fn.Call(args)` — or to another such helper —
+// exactly once, and fn is not used for any other kind-restricted operation. Typical: a deferred-recover wrapper
+// (safeCall), or a method that also unpacks the results (invoke). A call of such a helper is judged like the reflect
+// Call it makes: preconditions at the helper's call sites, results as Call results. Returns the parameter indices.
+func reflectCallWrapperIdx(p *Prog, f *ssa.Function, depth int) (fnIdx, argsIdx int, ok bool) {
+	if f == nil || depth > 2 || !p.InPkg(f) || f.Blocks == nil || f.Signature.Results().Len() < 1 {
+		return 0, 0, false
 	}
-	if !isReflectValue(f.Params[0].Type()) {
-		return false
+	paramIdx := func(v ssa.Value) int {
+		v = stripLoad(v)
+		for i, pa := range f.Params {
+			if ssa.Value(pa) == v {
+				return i
+			}
+		}
+		return -1
 	}
 	n := 0
 	for _, b := range f.Blocks {
 		for _, in := range b.Instrs {
-			c, ok := in.(*ssa.Call)
-			if !ok || c.Common().StaticCallee() == nil {
+			c, isC := in.(*ssa.Call)
+			if !isC || c.Common().StaticCallee() == nil {
 				continue
 			}
-			name := p.extName(c.Common().StaticCallee())
-			if !strings.HasPrefix(name, "(reflect.Value).") {
-				continue
+			cal := c.Common().StaticCallee()
+			args := c.Common().Args
+			var fi, ai int
+			switch {
+			case p.extName(cal) == "(reflect.Value).Call" && len(args) >= 2:
+				fi, ai = paramIdx(args[0]), paramIdx(args[1])
+			default:
+				wf, wa, isW := reflectCallWrapperIdx(p, cal, depth+1)
+				if !isW || wf >= len(args) || wa >= len(args) {
+					continue
+				}
+				fi, ai = paramIdx(args[wf]), paramIdx(args[wa])
 			}
-			if name != "(reflect.Value).Call" || stripLoad(c.Common().Args[0]) != ssa.Value(f.Params[0]) || stripLoad(c.Common().Args[1]) != ssa.Value(f.Params[1]) {
-				return false
+			if fi < 0 || ai < 0 {
+				return 0, 0, false // calls something that is not its own parameters
 			}
+			fnIdx, argsIdx = fi, ai
 			n++
 		}
 	}
-	return n == 1
+	return fnIdx, argsIdx, n == 1
+}
+
+// reflectCallWrapper: see reflectCallWrapperIdx.
+func reflectCallWrapper(p *Prog, f *ssa.Function) bool {
+	_, _, ok := reflectCallWrapperIdx(p, f, 0)
+	return ok
 }
 
 // asReflectCallSite: in is `fn.Call(args)` or a call of a reflectCallWrapper; returns the function value and the
 // argument slice.
 func asReflectCallSite(p *Prog, in ssa.Instruction) (fn, args ssa.Value, ok bool) {
 	c, isC := in.(*ssa.Call)
-	if !isC || c.Common().StaticCallee() == nil || len(c.Common().Args) < 2 {
+	if !isC || c.Common().StaticCallee() == nil {
 		return nil, nil, false
 	}
 	cal := c.Common().StaticCallee()
-	if p.extName(cal) == "(reflect.Value).Call" || reflectCallWrapper(p, cal) {
+	if p.extName(cal) == "(reflect.Value).Call" && len(c.Common().Args) >= 2 {
 		return c.Common().Args[0], c.Common().Args[1], true
+	}
+	if fi, ai, isW := reflectCallWrapperIdx(p, cal, 0); isW && fi < len(c.Common().Args) && ai < len(c.Common().Args) {
+		return c.Common().Args[fi], c.Common().Args[ai], true
 	}
 	return nil, nil, false
 }
